@@ -66,6 +66,10 @@ func DecryptAES(nonce, payload, passphrase []byte) ([]byte, error) {
 		return nil, err
 	}
 
+	if len(nonce) != aesgcm.NonceSize() {
+		return nil, errors.New("incorrect nonce length")
+	}
+
 	return aesgcm.Open(nil, nonce, payload, nil)
 }
 
@@ -101,6 +105,9 @@ func EncryptAES(payload, passphrase []byte) ([]byte, []byte, error) {
 
 // DecryptValueKey decrypts the value key using the passphrase
 func DecryptValueKey(valKey, mh multihash.Multihash) ([]byte, error) {
+	if len(valKey) <= nonceLen {
+		return nil, errors.New("encrypted value key too short")
+	}
 	return DecryptAES(valKey[:nonceLen], valKey[nonceLen:], mh)
 }
 
